@@ -96,8 +96,19 @@ ObsPre(pre, a, line, tr) ==
                  !.apps = [n \in DOMAIN pre.apps |->
                              [pre.apps[n] EXCEPT !.prio = prioO(n), !.alloc = allocO(n)]]]
 
+(* marks for unscheduling are given by the environment for the placement the   *)
+(* instance has at that moment (master._freeze_server): a |-> that server      *)
+MarkNext(mk, pre, line) ==
+  IF "exc" \in DOMAIN line THEN mk
+  ELSE IF line.ev = "MarkUnschedule" /\ line.args[1] \in AppNames(pre)
+  THEN With(mk, line.args[1], pre.apps[line.args[1]].server)
+  ELSE IF line.ev = "RemoveApp" THEN Without(mk, line.args[1])
+  ELSE IF line.ev = "L2" THEN EmptyFn
+  ELSE mk
+
 AuxNext(a, pre, line, post, scn) ==
   [down |-> DownNext(a.down, pre, line, post),
+   marks |-> MarkNext(a.marks, pre, line),
    prio |-> IF line.ev \in {"Submit", "SetPrio", "RemoveApp"}
             THEN PrioNext(a.prio, line, CanonScn(scn)) ELSE a.prio,
    alloc |-> IF line.ev \in {"Submit", "Move", "RemoveApp"}
@@ -111,6 +122,14 @@ C03declared(post, al, scn) ==
     s \in SrvNames(post) =>
       /\ post.servers[s].label = x.label
       /\ (post.apps[a].own \cup x.traits) \subseteq post.servers[s].traits
+
+(* pre-state with the unschedule flags as the observer knows them (L1 traces):  *)
+(* marked = the environment marked the instance on the server it is still on  *)
+ObsMarks(pre, mk, kind) ==
+  IF kind # "l1" THEN pre
+  ELSE [pre EXCEPT !.apps = [n \in DOMAIN pre.apps |->
+          [pre.apps[n] EXCEPT !.unschedule =
+             (n \in DOMAIN mk /\ mk[n] # NoServer /\ mk[n] = pre.apps[n].server)]]]
 
 CycleFail(pre, line, post) ==
   LET q == Flatten(line.queues)
@@ -132,7 +151,7 @@ CycleFail(pre, line, post) ==
                  post.apps[a].server \in SrvNames(post) =>
                    post.servers[post.apps[a].server].label = line.declared[a])
         ELSE {})
-  \cup F("C08.frozenKeep", C08frozenKeep(pre, post, q))
+  \cup F("C08.frozenKeep", C08frozenKeep(ObsMarks(pre, aux.marks, Traces[t].kind), post, q))
   \cup F("C08.frozenNoNew", C08frozenNoNew(pre, post))
   \cup F("C08.blacklist", C08blacklist(post))
   \cup (LET op == ObsPre(pre, aux, line, Traces[t]) IN
@@ -184,7 +203,7 @@ Init == /\ t \in DOMAIN Traces
         /\ i = 1
         /\ st = Canon(Traces[t].lines[1].post)
         /\ aux = [down |-> DownOf(Canon(Traces[t].lines[1].post)), alloc |-> EmptyFn,
-                  prio |-> EmptyFn]
+                  prio |-> EmptyFn, marks |-> EmptyFn]
 
 Next == /\ i < Len(Traces[t].lines)
         /\ i' = i + 1
